@@ -14,11 +14,21 @@ import (
 // method (both are part of the dynamodbiface.DynamoDBAPI surface the fake implements).
 type V1 struct {
 	C     *v1client.Client
-	calls int64 // atomic: the adapter is shared by the goroutines of the concurrency monitors
+	calls int64           // atomic: the adapter is shared by the goroutines of the concurrency monitors
+	done  context.Context // set for the duration of one Do by Op.DoneCtx (sequential workloads only)
 }
 
 func (c *V1) viaContext() bool {
 	return atomic.AddInt64(&c.calls, 1)%2 == 0
+}
+
+// ctxFor: the context of the current call and whether the ...WithContext variant is used. Op.DoneCtx (only set
+// by sequential workloads) forces the variant with a context that is already done.
+func (c *V1) ctxFor() (context.Context, bool) {
+	if c.done != nil {
+		return c.done, true
+	}
+	return context.Background(), c.viaContext()
 }
 
 // NewV1 returns a fresh SDK v1 client.
@@ -209,6 +219,12 @@ func (c *V1) Do(op Op) (out Outcome) {
 		cls, msg := ClassifyErr(err)
 		return Outcome{Class: cls, Msg: msg}
 	}
+	if op.DoneCtx != "" {
+		ctx, cancel := DoneContext(op.DoneCtx)
+		defer cancel()
+		c.done = ctx
+		defer func() { c.done = nil }()
+	}
 	switch op.Kind {
 	case OpPut:
 		in := &v1ddb.PutItemInput{TableName: aws.String(op.Table), Item: ItemToV1(op.Item), ConditionExpression: strp(op.Cond),
@@ -302,6 +318,9 @@ func (c *V1) Do(op Op) (out Outcome) {
 		in.Select = strp(op.Select)
 		if op.Limit > 0 {
 			in.Limit = aws.Int64(int64(op.Limit))
+		}
+		if op.TotalSegments > 0 {
+			in.Segment, in.TotalSegments = aws.Int64(int64(op.Segment)), aws.Int64(int64(op.TotalSegments))
 		}
 		res, err := c.callScan(in)
 		o := fin(err)
@@ -432,85 +451,85 @@ func (c *V1) Do(op Op) (out Outcome) {
 }
 
 func (c *V1) callPutItem(in *v1ddb.PutItemInput) (*v1ddb.PutItemOutput, error) {
-	if c.viaContext() {
-		return c.C.PutItemWithContext(context.Background(), in)
+	if ctx, ok := c.ctxFor(); ok {
+		return c.C.PutItemWithContext(ctx, in)
 	}
 	return c.C.PutItem(in)
 }
 
 func (c *V1) callGetItem(in *v1ddb.GetItemInput) (*v1ddb.GetItemOutput, error) {
-	if c.viaContext() {
-		return c.C.GetItemWithContext(context.Background(), in)
+	if ctx, ok := c.ctxFor(); ok {
+		return c.C.GetItemWithContext(ctx, in)
 	}
 	return c.C.GetItem(in)
 }
 
 func (c *V1) callUpdateItem(in *v1ddb.UpdateItemInput) (*v1ddb.UpdateItemOutput, error) {
-	if c.viaContext() {
-		return c.C.UpdateItemWithContext(context.Background(), in)
+	if ctx, ok := c.ctxFor(); ok {
+		return c.C.UpdateItemWithContext(ctx, in)
 	}
 	return c.C.UpdateItem(in)
 }
 
 func (c *V1) callDeleteItem(in *v1ddb.DeleteItemInput) (*v1ddb.DeleteItemOutput, error) {
-	if c.viaContext() {
-		return c.C.DeleteItemWithContext(context.Background(), in)
+	if ctx, ok := c.ctxFor(); ok {
+		return c.C.DeleteItemWithContext(ctx, in)
 	}
 	return c.C.DeleteItem(in)
 }
 
 func (c *V1) callQuery(in *v1ddb.QueryInput) (*v1ddb.QueryOutput, error) {
-	if c.viaContext() {
-		return c.C.QueryWithContext(context.Background(), in)
+	if ctx, ok := c.ctxFor(); ok {
+		return c.C.QueryWithContext(ctx, in)
 	}
 	return c.C.Query(in)
 }
 
 func (c *V1) callScan(in *v1ddb.ScanInput) (*v1ddb.ScanOutput, error) {
-	if c.viaContext() {
-		return c.C.ScanWithContext(context.Background(), in)
+	if ctx, ok := c.ctxFor(); ok {
+		return c.C.ScanWithContext(ctx, in)
 	}
 	return c.C.Scan(in)
 }
 
 func (c *V1) callBatchWriteItem(in *v1ddb.BatchWriteItemInput) (*v1ddb.BatchWriteItemOutput, error) {
-	if c.viaContext() {
-		return c.C.BatchWriteItemWithContext(context.Background(), in)
+	if ctx, ok := c.ctxFor(); ok {
+		return c.C.BatchWriteItemWithContext(ctx, in)
 	}
 	return c.C.BatchWriteItem(in)
 }
 
 func (c *V1) callTransactWriteItems(in *v1ddb.TransactWriteItemsInput) (*v1ddb.TransactWriteItemsOutput, error) {
-	if c.viaContext() {
-		return c.C.TransactWriteItemsWithContext(context.Background(), in)
+	if ctx, ok := c.ctxFor(); ok {
+		return c.C.TransactWriteItemsWithContext(ctx, in)
 	}
 	return c.C.TransactWriteItems(in)
 }
 
 func (c *V1) callCreateTable(in *v1ddb.CreateTableInput) (*v1ddb.CreateTableOutput, error) {
-	if c.viaContext() {
-		return c.C.CreateTableWithContext(context.Background(), in)
+	if ctx, ok := c.ctxFor(); ok {
+		return c.C.CreateTableWithContext(ctx, in)
 	}
 	return c.C.CreateTable(in)
 }
 
 func (c *V1) callDeleteTable(in *v1ddb.DeleteTableInput) (*v1ddb.DeleteTableOutput, error) {
-	if c.viaContext() {
-		return c.C.DeleteTableWithContext(context.Background(), in)
+	if ctx, ok := c.ctxFor(); ok {
+		return c.C.DeleteTableWithContext(ctx, in)
 	}
 	return c.C.DeleteTable(in)
 }
 
 func (c *V1) callDescribeTable(in *v1ddb.DescribeTableInput) (*v1ddb.DescribeTableOutput, error) {
-	if c.viaContext() {
-		return c.C.DescribeTableWithContext(context.Background(), in)
+	if ctx, ok := c.ctxFor(); ok {
+		return c.C.DescribeTableWithContext(ctx, in)
 	}
 	return c.C.DescribeTable(in)
 }
 
 func (c *V1) callUpdateTable(in *v1ddb.UpdateTableInput) (*v1ddb.UpdateTableOutput, error) {
-	if c.viaContext() {
-		return c.C.UpdateTableWithContext(context.Background(), in)
+	if ctx, ok := c.ctxFor(); ok {
+		return c.C.UpdateTableWithContext(ctx, in)
 	}
 	return c.C.UpdateTable(in)
 }
